@@ -243,7 +243,7 @@ def worker(ctx):
 def run(env):
     quick = env.tier == "quick"
     stats = core.run_workers(__name__, "worker", PROP, env.tier, env.seed, env.driver, env.hooks_on,
-                             40 if quick else 500, {"units_per_worker": 1200 if quick else 30000})
+                             40 if quick else 500, {"units_per_worker": 4000 if quick else 30000})
     return core.finish(PROP, env.tier, env.seed, LEVEL, stats, env.t0, RULE, min_conclusive=1000 if quick else 10000,
                        assumptions=["rows are compared through their printed one-line JSON text; equal texts are equal rows",
                                     "-0, member-order permutations and |n| >= 2^53 are outside the property's domain and not generated"])
